@@ -41,6 +41,10 @@ CONFIG = {
                                                ("perturb-q1/plain", "plain", "yaepsim_q1", "perturb", 0, 3000, 100000),
                                                ("ansic/plain", "plain", "yaepsim", "ansic", 0, 16, 400),
                                                ("ansic/asan", "asan", "yaepsim", "ansic", 0, 0, 48)]),
+    "C19": dict(level="exploration", batches=[("cont/asan", "asan", "contsim", "cont", 0, 30000, 1500000),
+                                               ("cont/plain", "plain", "contsim", "cont", 0, 60000, 6000000),
+                                               ("contfail/asan", "asan", "contsim", "contfail", 0, 15000, 700000),
+                                               ("contfail/plain", "plain", "contsim", "contfail", 0, 30000, 3000000)]),
     "C17": dict(level="fault_enumeration", batches=[("oom/asan", "asan", "yaepsim", "oom", 0, 5000, 60000),
                                                      ("oom/plain", "plain", "yaepsim", "oom", 0, 10000, 200000)]),
 }
@@ -49,6 +53,10 @@ CHUNK = 250  # runs per worker process (workers are recycled: DESIGN.md §3.9)
 # quick enumerates a seeded slice of the corpus, thorough all of it, in both flavours.
 ENUM = {"C17": dict(quick=[("enum/asan", "asan", 12), ("enum/plain", "plain", 40)], thorough=[("enum/asan", "asan", None), ("enum/plain", "plain", None)])}
 
+RULE_CONT = ("one evaluation = one simulated run: a seeded sequence of 13-203 container operations (hash table, object stack, VLO) executed on the C "
+             "implementation and on the C++ implementation under the simulated allocator (placement, poison, realloc policy, knob presets, and in the "
+             "contfail batches failure of the k-th request of an operation), checked against map/vector/byte-string models after every operation; "
+             "distinct = distinct hashes of the sequence (operation kind, outcome, which containers exist); every run has at least 13 operations")
 REAL_VS_STUB = {
     "real": ["src/yaep.c (all of it, incl. error recovery and translation)", "src/sgramm.y (bison-generated from the tree)",
              "src/allocate.c", "src/hashtab.c objstack.c vlobject.c", "src/hashtab.cpp objstack.cpp vlobject.cpp", "src/yaep.cpp (class yaep)"],
@@ -465,7 +473,7 @@ def main():
         "coverage": {
             "evaluations": tot_runs,
             "distinct_nontrivial": len(shapes),
-            "rule": "one evaluation = one simulated run (a seeded plan of 6-40 API operations by 1-3 client tasks, executed on libyaep and on "
+            "rule": RULE_CONT if prop == "C19" else "one evaluation = one simulated run (a seeded plan of 6-40 API operations by 1-3 client tasks, executed on libyaep and on "
                     "libyaep++ under the simulated heap, readers and allocator callbacks); distinct = distinct hashes of the abstract history "
                     "(task, op kind, abstract object state before, outcome class, allocator mode, fault kind) per run; every run has at least 6 "
                     "operations and at least one definition or parse, so each distinct history is non-trivial",
